@@ -12,12 +12,16 @@ A self-test failure is an ANALYSIS-ERROR (the checker is broken), never a proper
 """
 import ast
 import os
+import json
 import shutil
+import subprocess
 import tempfile
 from concurrent.futures import ProcessPoolExecutor
 from pathlib import Path
 
 from .srcmodel import AnalysisError
+
+VERIF = Path(__file__).resolve().parents[2]
 
 
 class Mutant:
@@ -132,6 +136,72 @@ def _run_normalised(args):
         shutil.rmtree(root, ignore_errors=True)
 
 
+def _patched_files(repo_root, patch_path):
+    """{rel path: new text} of the files a unified diff touches, applied to copies of <repo_root>'s files with patch(1)."""
+    text = Path(patch_path).read_text()
+    rels = sorted({l[6:].strip() for l in text.splitlines() if l.startswith("+++ b/")})
+    tmp = tempfile.mkdtemp(prefix="osaca_sa_patch_")
+    try:
+        for rel in rels:
+            src = Path(repo_root) / rel
+            (Path(tmp) / rel).parent.mkdir(parents=True, exist_ok=True)
+            if src.exists():
+                shutil.copy(src, Path(tmp) / rel)
+        r = subprocess.run(["patch", "-p1", "-s", "-d", tmp, "-i", str(Path(patch_path).resolve())], capture_output=True, text=True)
+        if r.returncode != 0:
+            return None
+        return {rel: (Path(tmp) / rel).read_text() for rel in rels if (Path(tmp) / rel).exists()}
+    finally:
+        shutil.rmtree(tmp, ignore_errors=True)
+
+
+def _run_patch(args):
+    """Findings of `prop` on the tree with a stored patch (seeded change or refactoring) applied."""
+    prop, repo_root, scratch, name, patch_path = args
+    replace = _patched_files(repo_root, patch_path)
+    if replace is None:
+        return name, "stale", "patch does not apply to the current tree"
+    root = Path(scratch) / ("p_" + name)
+    root.mkdir()
+    try:
+        _link_tree(repo_root, root, replace)
+        try:
+            from .cli import analyse
+
+            ctx, _ = analyse(prop, "quick", root)
+            keys = sorted({(f.rule, f.key) for f in ctx.findings})
+            if ctx.incomplete is not None and not keys:
+                return name, "analysis-error", str(ctx.incomplete)[:300]
+            return name, "ran", keys
+        except AnalysisError as e:
+            return name, "analysis-error", str(e)[:300]
+        except Exception as e:
+            import traceback
+
+            return name, "error", "rule crashed: %r %s" % (e, traceback.format_exc()[-400:])
+    finally:
+        shutil.rmtree(root, ignore_errors=True)
+
+
+def stored_patches(prop):
+    """(seeded changes this property's check must catch, refactorings no check may object to)."""
+    seeded, refac = [], []
+    for d in sorted((VERIF / "seeded").glob("*")):
+        meta = d / "meta.json"
+        if not (d / "patch.diff").exists() or not meta.exists():
+            continue
+        try:
+            m = json.loads(meta.read_text())
+        except ValueError:
+            continue
+        if prop in (m.get("caught_by") or []) and (m.get("property") == prop or m.get("property") == "C14"):
+            seeded.append((d.name, str(d / "patch.diff")))
+    for d in sorted((VERIF / "refactors").glob("*")):
+        if (d / "patch.diff").exists():
+            refac.append((d.name, str(d / "patch.diff")))
+    return seeded, refac
+
+
 def run(prop, ctx):
     from .mutants import MUTANTS
 
@@ -148,7 +218,11 @@ def run(prop, ctx):
             from .rewrites import SILENT_VARIANTS
 
             var_futures = {v: ex.submit(_run_normalised, (prop, repo_root, scratch, v)) for v in SILENT_VARIANTS}
+            seeded, refac = stored_patches(prop)
+            patch_futures = [(kind, ex.submit(_run_patch, (prop, repo_root, scratch, name, path)))
+                             for kind, lst in (("seeded", seeded), ("refactoring", refac)) for name, path in lst]
             outs = list(ex.map(_run_mutant, jobs))
+            patch_outs = [(kind, fu.result()) for kind, fu in patch_futures]
             norm = norm_future.result()
             variants = {v: f.result() for v, f in var_futures.items()}
         by_id = {m.id: m for m in muts}
@@ -184,6 +258,29 @@ def run(prop, ctx):
                 missed.append("%s (expected a new %s finding; new findings: %s)" % (
                     mid, m.rule or "any", [k[:80] for _, k in new][:3]))
                 results["details"].append({"mutant": mid, "status": "missed"})
+        # stored patches: every seeded change of this property is reported, no refactoring is
+        results["seeded_changes"] = {}
+        results["refactorings"] = {}
+        for kind, (name, status, payload) in patch_outs:
+            if status == "stale":
+                results[kind == "seeded" and "seeded_changes" or "refactorings"][name] = "stale (does not apply)"
+                continue
+            if kind == "seeded":
+                new = [(r, k) for r, k in payload if k not in base_keys] if status == "ran" else []
+                results["seeded_changes"][name] = "caught" if new else "MISSED (%s)" % status
+                if not new:
+                    missed.append("seeded change %s is not reported (%s%s)" % (name, status, ": " + str(payload)[:120] if status != "ran" else ""))
+            else:
+                if status == "ran":
+                    new = [(r, k) for r, k in payload if k not in base_keys]
+                    results["refactorings"][name] = "silent" if not new else "FALSE ALARM"
+                    if new:
+                        missed.append("behaviour-preserving refactoring %s raised %s" % (name, [k[:90] for _, k in new][:2]))
+                elif status == "analysis-error":
+                    results["refactorings"][name] = "not understood (exit 2)"
+                else:
+                    results["refactorings"][name] = status
+                    missed.append("refactoring %s: %s %s" % (name, status, str(payload)[:200]))
         results["missed"] = len(missed)
         if norm[0] == "ran":
             results["silent_ok"] = sorted(k for _, k in norm[1]) == sorted(base_keys)
